@@ -43,7 +43,9 @@ MANIFEST = dict(
          "differential correspondence over all four public functions (both methods, components, weights, reductions, scalar "
          "and per-case thresholds, NaN members); the same statements plus 'tw value = weighted integral' and 'integral of "
          "the real brier_score_for_ensemble over all thresholds = CRPS (fair and not)' are evaluated on the implementation "
-         "against the Lean integral spec in exact arithmetic, exhaustively for <=3 members over a 4-value pool in thorough.",
+         "against the Lean integral spec in exact arithmetic (also 'fair' tw values = weighted integral - offset of the "
+         "chained members; also through tw_crps_for_ensemble + chaining_func_kwargs with differing defaults; for every "
+         "kind of ensemble-member coordinate incl. duplicate labels, which the value must not depend on), exhaustively for <=3 members over a 4-value pool in thorough.",
     note="Trusted: Lean kernel; propext/Classical.choice/Quot.sound; the hand-written model (no translator: the code uses "
          "isel loops / concat) tied only by correspondence on dyadic inputs with tolerance 1e-9; SV.Fl (IEEE minus rounding, "
          "overflow, signed zero). Not proved, only compared: the under/over components of a single tw value as weighted "
@@ -54,8 +56,10 @@ MANIFEST = dict(
          "spread is checked per case.",
     technique="Lean 4 theorems over a hand model + differential correspondence + exact-integral oracle",
     design="6/C06")
-RULE = ("one case = (function, method, components, members per forecast case incl. NaN, obs, thresholds scalar/per-case, "
-        "weights, reduction); values from a small dyadic pool with >= 50 % ties among members/obs/thresholds; "
+RULE = ("one case = (function incl. tw_crps_for_ensemble called directly with chaining_func_kwargs and a chaining function "
+        "whose defaults differ from the supplied thresholds, method, components, members per forecast case incl. NaN, "
+        "ensemble-member coordinate none/unique/duplicate (lagged 0,1,2,0,1,2)/strings/unsorted/NaN, obs, thresholds "
+        "scalar/per-case, weights, reduction); values from a small dyadic pool with >= 50 % ties among members/obs/thresholds; "
         "distinct = distinct canonical call; non-trivial = at least one non-NaN output and not malformed")
 
 COMPS = ["total", "under", "over", "spread"]
@@ -80,7 +84,12 @@ def build(call):
     n, M = mem.shape
     labels = list(call.get("labels") or range(n))
     md = _name(call.get("member_dim", "ens"))
-    fc = xr.DataArray(mem, dims=["c", md], coords={"c": labels})
+    coords = {"c": labels}
+    ml = call.get("member_labels")
+    if ml is not None:
+        # coordinate on the ensemble-member dimension: the score must not depend on it (duplicates, strings, unsorted)
+        coords[md] = np.array(ml, dtype=object) if any(isinstance(v, str) for v in ml) else np.array(ml)
+    fc = xr.DataArray(mem, dims=["c", md], coords=coords)
     if call.get("layout") == "mc":
         fc = fc.transpose(md, "c").copy()
     ob = xr.DataArray(np.array(call["obs"], dtype=float), dims=["c"], coords={"c": labels})
@@ -102,6 +111,59 @@ def red_kwargs(call):
     return {}
 
 
+KW_FNS = {"kw_upper": "upper", "kw_lower": "lower", "kw_interval": "interval"}
+INF = float("inf")
+
+
+def _kw_value(v, labels, form):
+    """a threshold handed over through chaining_func_kwargs: python float / numpy scalar / 0-d or per-case DataArray"""
+    if isinstance(v, list):
+        return xr.DataArray(np.array(v, dtype=float), dims=["c"], coords={"c": labels})
+    if form == "np":
+        return np.float64(v)
+    if form == "da0":
+        return xr.DataArray(float(v))
+    return float(v)
+
+
+def chain_upper(default, shifted):
+    def upper_tail(x, threshold=default):
+        v = np.maximum(x, threshold)
+        return v - threshold if shifted else v
+    return upper_tail
+
+
+def chain_lower(default, shifted):
+    def lower_tail(x, threshold=default):
+        v = np.minimum(x, threshold)
+        return v - threshold if shifted else v
+    return lower_tail
+
+
+def chain_interval(dlo, dhi, shifted):
+    def interval(x, lower=dlo, upper=dhi):
+        v = np.minimum(np.maximum(x, lower), upper)
+        return v - lower if shifted else v
+    return interval
+
+
+def run_kw(call, fc, ob, md, labels, kw):
+    """tw_crps_for_ensemble called DIRECTLY with a reusable chaining function whose threshold parameters have defaults
+    (call["kw_default"], different from the wanted values); the wanted thresholds go through chaining_func_kwargs"""
+    from scores.probability import tw_crps_for_ensemble
+    fn, form, d = call["fn"], call.get("kw_form", "float"), call.get("kw_default")
+    shifted = bool(call.get("kw_shifted"))
+    if fn == "kw_interval":
+        d = d if isinstance(d, list) else [0.0, 1.0]
+        f = chain_interval(float(d[0]), float(d[1]), shifted)
+        kwargs = {_name("lower"): _kw_value(call["a"], labels, form), _name("upper"): _kw_value(call["b"], labels, form)}
+    else:
+        d = 0.0 if d is None else float(d)
+        f = (chain_upper if fn == "kw_upper" else chain_lower)(d, shifted)
+        kwargs = {_name("threshold"): _kw_value(call["t"], labels, form)}
+    return tw_crps_for_ensemble(fc, ob, md, f, chaining_func_kwargs=kwargs, **kw)
+
+
 def run_impl(call):
     """returns {"total": [...], ...} (per-case values, or a single mean) or {"err": class}"""
     from scores.probability import (crps_for_ensemble, interval_tw_crps_for_ensemble, tail_tw_crps_for_ensemble,
@@ -121,6 +183,8 @@ def run_impl(call):
             elif fn == "tw_upper":  # the generic entry point with a user chaining function
                 t = _thr(call["t"], labels)
                 r = tw_crps_for_ensemble(fc, ob, md, lambda x, t=t: np.maximum(x, t), **kw)
+            elif fn in KW_FNS:
+                r = run_kw(call, fc, ob, md, labels, kw)
             else:
                 raise RuntimeError("bad fn")
     except Exception as ex:  # noqa: BLE001
@@ -134,13 +198,17 @@ def run_impl(call):
     return out
 
 
+def kind_of(fn):
+    return {"tw_upper": "upper", **KW_FNS}.get(fn, fn)
+
+
 def per_case(v, k, n):
     return v[k] if isinstance(v, list) else v
 
 
 def model_op(call):
     fn = call["fn"]
-    kind = {"tw_upper": "upper"}.get(fn, fn)
+    kind = kind_of(fn)
     n = len(call["obs"])
     cases = []
     for k in range(n):
@@ -166,6 +234,57 @@ def draw(rng, pool, others, p_tie=0.55):
     if rng.random() < 0.7:
         return rng.choice(pool)
     return core.dyadic(rng, -8, 8)
+
+
+MEMBER_LABEL_STYLES = ["none", "unique", "lagged", "same", "strings", "strings-dup", "unsorted", "float-desc", "nan"]
+
+
+def gen_member_labels(rng, M, style=None):
+    """coordinate labels of the ensemble-member dimension (None = no coordinate); JSON-able"""
+    style = style or rng.choice(["none", "none", "unique", "lagged", "lagged", "lagged", "same", "strings", "strings-dup",
+                                 "unsorted", "float-desc", "nan"])
+    if style == "none":
+        return None
+    if style == "unique":
+        return list(range(M))
+    if style == "lagged":                      # two or three concatenated runs: 0,1,2,0,1,2
+        k = max(1, (M + 1) // 2) if rng.random() < 0.7 else max(1, (M + 2) // 3)
+        return [i % k for i in range(M)]
+    if style == "same":
+        return [7] * M
+    if style == "strings":
+        return rng.sample(["q", "b", "zz", "a", "m10", "m9", "B", "c"], M)
+    if style == "strings-dup":
+        return [rng.choice(["run_b", "run_a", "ctl"]) for _ in range(M)]
+    if style == "unsorted":
+        return rng.sample([30, -2, 11, 5, 100, 0, 7, 8], M)
+    if style == "float-desc":
+        return [2.5 - 0.5 * (i // 2) for i in range(M)] if rng.random() < 0.5 else [float(M - i) for i in range(M)]
+    return [NAN] * M
+
+
+def gen_kw_default(rng, fn, call, allv):
+    """defaults of the reusable chaining function: always different from the supplied thresholds, and mostly placed
+    so that some observation is chained differently by the default and by the supplied value"""
+    lo = min(allv) if allv else 0.0
+    hi = max(allv) if allv else 0.0
+    n = len(call["obs"])
+
+    def differs(d, t):
+        return all(math.isnan(x) or x != d for x in (t if isinstance(t, list) else [t]))
+    if fn == "kw_interval":
+        for _ in range(20):
+            d = rng.choice([[-INF, INF], [0.0, 1.0], [lo - 1.0, lo - 0.5], [hi + 0.5, hi + 1.0], [lo - 1.0, hi + 1.0],
+                            sorted([core.dyadic(rng, -8, 8), core.dyadic(rng, -8, 8) + 0.25])])
+            if d[0] < d[1] and (differs(d[0], call["a"]) or differs(d[1], call["b"])):
+                return d
+        return [-INF, INF]
+    ident = -INF if fn == "kw_upper" else INF        # the default leaves every value alone
+    for _ in range(20):
+        d = rng.choice([ident, ident, 0.0, hi + 1.0, lo - 1.0, core.dyadic(rng, -8, 8), -ident])
+        if differs(d, call["t"]):
+            return d
+    return ident
 
 
 def gen_call(rng, fn=None, force=None):
@@ -195,13 +314,14 @@ def gen_call(rng, fn=None, force=None):
             y = NAN
         members.append(row)
         obs.append(y)
-    fn = fn or rng.choice(["plain", "plain", "upper", "lower", "interval", "tw_upper"])
+    fn = fn or rng.choice(["plain", "plain", "upper", "lower", "interval", "tw_upper", "kw_upper", "kw_lower", "kw_interval"])
     call = {"fn": fn, "method": rng.choice(["ecdf", "fair"]), "components": rng.random() < 0.5,
             "members": members, "obs": obs, "layout": rng.choice(["cm", "mc"]),
             "member_dim": rng.choice(["ens", "member", "m"]),
             "labels": rng.choice([list(range(n)), [10 * (n - i) for i in range(n)]]),
             "reduce": rng.choice(["cases", "cases", "mean"]),
-            "preserve_spelling": rng.choice(["all", "list"]), "reduce_spelling": rng.choice([None, "list", "all"])}
+            "preserve_spelling": rng.choice(["all", "list"]), "reduce_spelling": rng.choice([None, "list", "all"]),
+            "member_labels": gen_member_labels(rng, M)}
     allv = [v for r in members for v in r if not math.isnan(v)] + [v for v in obs if not math.isnan(v)]
 
     def thr():
@@ -212,14 +332,18 @@ def gen_call(rng, fn=None, force=None):
         if rng.random() < 0.06 and not force.get("no_nan_thr"):
             t[rng.randrange(n)] = NAN
         return t
-    if fn in ("upper", "lower", "tw_upper"):
+    if fn in ("upper", "lower", "tw_upper", "kw_upper", "kw_lower"):
         call["t"] = thr()
-    if fn == "interval":
+    if fn in ("interval", "kw_interval"):
         a, b = thr(), thr()
-        # mostly well ordered; sometimes leave a >= b to exercise the guard
-        if rng.random() < 0.85:
+        # mostly well ordered; sometimes leave a >= b to exercise the guard (the generic entry point has no guard)
+        if rng.random() < 0.85 or fn == "kw_interval":
             a, b = order_bounds(a, b, n)
         call["a"], call["b"] = a, b
+    if fn in KW_FNS:
+        call["kw_default"] = gen_kw_default(rng, fn, call, allv)
+        call["kw_form"] = rng.choice(["float", "float", "np", "da0"])
+        call["kw_shifted"] = rng.random() < 0.25
     if rng.random() < 0.4:
         call["weights"] = [rng.choice([0.0, 0.5, 1.0, 1.0, 2.0, 3.0, NAN]) if rng.random() < 0.9 else NAN for _ in range(n)]
         if rng.random() < 0.8:
@@ -345,6 +469,8 @@ def correspondence(ctx):
             ctx.tag("weights")
         if any(math.isnan(v) for row in c["members"] for v in row):
             ctx.tag("nan-member")
+        ml = c.get("member_labels")
+        ctx.tag("member-labels:" + ("none" if ml is None else "duplicate" if len(set(map(str, ml))) < len(ml) else "unique"))
         if isinstance(c.get("t"), list) or isinstance(c.get("a"), list) or isinstance(c.get("b"), list):
             ctx.tag("per-case-threshold")
         if "fail" in m:
@@ -410,9 +536,26 @@ def has_nan_thr(call):
     return False
 
 
+def clip_call(call):
+    """the chained ensemble v(x), v(y) computed from the exact values (min / max of dyadics are exact)"""
+    a, b = tw_bounds(call)
+    n = len(call["obs"])
+
+    def v(x, k):
+        if math.isnan(x):
+            return x
+        if a is not None:
+            x = max(x, per_case(a, k, n))
+        if b is not None:
+            x = min(x, per_case(b, k, n))
+        return x
+    return dict(call, members=[[v(x, k) for x in row] for k, row in enumerate(call["members"])],
+                obs=[v(y, k) for k, y in enumerate(call["obs"])])
+
+
 def tw_bounds(call):
-    fn = call["fn"]
-    if fn in ("upper", "tw_upper"):
+    fn = kind_of(call["fn"])
+    if fn == "upper":
         return call["t"], None
     if fn == "lower":
         return None, call["t"]
@@ -444,7 +587,11 @@ class Checker:
             if has_nan_thr(c):
                 continue
             a, b = tw_bounds(c)
-            o = spec_ops(c, a, b)
+            if c["fn"] != "plain" and c["method"] == "fair":
+                # fair tw value = weighted integral of the untransformed ensemble - fairOffset of the chained members
+                o = spec_ops(c, a, b) + spec_ops(clip_call(c))
+            else:
+                o = spec_ops(c, a, b)
             idx.append((ci, len(ops), len(o)))
             ops += o
         res = core.run_driver("C06", ops)
@@ -463,9 +610,15 @@ class Checker:
                 thm = "crpsEns_ecdf_eq_integral" if c["method"] == "ecdf" else "crpsEns_fair_eq_integral_sub_offset"
             elif c["method"] == "ecdf":
                 exact = [core.parse_fl(x["tw"]) if "tw" in x else NAN for x in sp]
-                thm = "tw_eq_weighted_integral (compared, not proved)"
+                thm = "tw_ecdf_eq_weighted_integral"
             else:
-                continue
+                n = len(c["obs"])
+                exact = []
+                for x, xc in zip(sp[:n], sp[n:]):
+                    e, f = core.parse_fl(xc["ecdf"]), core.parse_fl(xc["fair"])
+                    exact.append(NAN if ("tw" not in x or core.is_nan(e) or core.is_nan(f))
+                                 else core.parse_fl(x["tw"]) - (e - f))
+                thm = "tw_fair_eq_weighted_integral_sub_offset"
             exp = apply_reduction(c, exact)
             if not cmp_lists(r["total"], exp, core.close):
                 self.fail("value-eq-integral", c, "value", r["total"], exp, thm)
@@ -508,9 +661,13 @@ class Checker:
     # -- 3. lower tail + interval + upper tail = unweighted CRPS  (a < b, no NaN thresholds)
     def partition(self, calls):
         for c in calls:
-            if c["fn"] != "interval" or interval_bad(c) or has_nan_thr(c):
+            if c["fn"] not in ("interval", "kw_interval") or interval_bad(c) or has_nan_thr(c):
                 continue
-            parts = [dict(c, fn="lower", t=c["a"]), c, dict(c, fn="upper", t=c["b"])]
+            if c["fn"] == "kw_interval":     # the three parts through tw_crps_for_ensemble + chaining_func_kwargs
+                d = c.get("kw_default") or [0.0, 1.0]
+                parts = [dict(c, fn="kw_lower", t=c["a"], kw_default=d[1]), c, dict(c, fn="kw_upper", t=c["b"], kw_default=d[0])]
+            else:
+                parts = [dict(c, fn="lower", t=c["a"]), c, dict(c, fn="upper", t=c["b"])]
             for p in parts:
                 p.pop("tail", None)
             whole = dict(c, fn="plain")
@@ -635,15 +792,70 @@ class Checker:
                 xs = [x for x in row if not math.isnan(x)]
                 if len(xs) == len(row) or not xs:
                     continue
-                one = dict(c, members=[xs], obs=[c["obs"][k]], labels=[0], reduce="cases", weights=None)
+                ml = c.get("member_labels")
+                one = dict(c, members=[xs], obs=[c["obs"][k]], labels=[0], reduce="cases", weights=None,
+                           member_labels=None if ml is None else [l for l, x in zip(ml, row) if not math.isnan(x)])
                 for key in ("t", "a", "b"):
                     if key in c:
                         one[key] = [c[key][k]] if isinstance(c[key], list) else c[key]
-                ref = dict(one, members=[row])
+                ref = dict(one, members=[row], member_labels=ml)
                 rr = run_impl(ref)
                 if "err" in rr:
                     continue
                 self._same("invariances", ref, one, rr, 1.0, "nan-member-dropped", "crps_nan_members_dropped")
+
+    # -- 6. the score is a function of the member VALUES: the labels of the ensemble-member coordinate do not matter
+    def member_labels(self, calls):
+        rng = self.ctx.rng
+        for c in calls:
+            M = len(c["members"][0])
+            base = dict(c, member_labels=None)
+            r0 = run_impl(base)
+            self.ctx.case("member-label-independence", describe(c), nontrivial=nontrivial(r0))
+            if "err" in r0:
+                continue
+            styles = [s for s in MEMBER_LABEL_STYLES if s != "none"]
+            mine = c.get("member_labels")
+            variants = ([mine] if mine is not None else []) + [gen_member_labels(rng, M, st) for st in rng.sample(styles, 3)]
+            variants.append([i % max(1, (M + 1) // 2) for i in range(M)])          # lagged 0,1,2,0,1,2
+            for ml in variants:
+                cv = dict(c, member_labels=ml)     # reported call = the labelled one (the replay re-runs exactly it)
+                if not self._agree("member-label-independence", cv, run_impl(cv), r0, "member-labels",
+                                   "the model has no member labels: the value is a function of the member values only",
+                                   {"reference": "the same call without a member coordinate"}):
+                    break
+
+    # -- 7. tw_crps_for_ensemble + chaining_func_kwargs = the dedicated tail / interval function, whatever the defaults
+    def generic_vs_dedicated(self, calls):
+        for c in calls:
+            if c["fn"] not in KW_FNS or has_nan_thr(c):
+                continue
+            ded = dict(c, fn=KW_FNS[c["fn"]])
+            ded.pop("tail", None)
+            r0 = run_impl(ded)
+            self.ctx.case("generic-kwargs-eq-dedicated", describe(c), nontrivial=nontrivial(r0))
+            if "err" in r0:
+                continue
+            if not self._agree("generic-kwargs-eq-dedicated", c, run_impl(c), r0, "generic-vs-dedicated",
+                               "tw_ecdf_eq_weighted_integral / tw_fair_eq_weighted_integral_sub_offset",
+                               {"reference": "tail_/interval_tw_crps_for_ensemble with the same thresholds"}):
+                continue
+            # another default of the reusable chaining function must not change anything
+            alt = dict(c, kw_default=([-INF, INF] if c["fn"] == "kw_interval" else (-INF if c["fn"] == "kw_upper" else INF)),
+                       kw_shifted=not c.get("kw_shifted"))
+            self._agree("generic-kwargs-eq-dedicated", c, run_impl(alt), r0, "default-independence",
+                        "tw_ecdf_eq_weighted_integral / tw_fair_eq_weighted_integral_sub_offset", {"variant": describe(alt)})
+
+    def _agree(self, batch, c, r, r0, sig, thm, extra):
+        """r (run of the reported call c, or of a variant of it) must equal the reference run r0"""
+        if "err" in r:
+            self.fail(batch, c, sig + ":exception", r, r0, thm, extra)
+            return False
+        for comp in r0:
+            if not cmp_lists(r[comp], r0[comp], core.close_ff):
+                self.fail(batch, c, sig, r[comp], r0[comp], thm, dict(extra, component=comp))
+                return False
+        return True
 
     def _same(self, batch, c, c2, r0, factor, sig, thm):
         r2 = run_impl(c2)
@@ -675,13 +887,19 @@ def exhaustive_calls():
             for y in pool:
                 rows.append(list(xs)); obs.append(y)
         for method in ("ecdf", "fair"):
+            # member labels must not matter: duplicates ('fair') / unsorted strings ('ecdf') on the member coordinate
+            ml = [7] * M if method == "fair" else ["q", "b", "zz"][:M]
             base = {"method": method, "components": True, "members": rows, "obs": obs, "layout": "cm", "member_dim": "ens",
-                    "labels": list(range(len(obs))), "reduce": "cases"}
+                    "labels": list(range(len(obs))), "reduce": "cases", "member_labels": ml}
             calls.append(dict(base, fn="plain"))
             for a, b in thr_pairs:
                 calls.append(dict(base, fn="interval", a=a, b=b))
                 calls.append(dict(base, fn="lower", t=a))
                 calls.append(dict(base, fn="upper", t=b))
+                # the same three parts through tw_crps_for_ensemble + chaining_func_kwargs (defaults: other thresholds)
+                calls.append(dict(base, fn="kw_interval", a=a, b=b, kw_default=[0.5, 1.0]))
+                calls.append(dict(base, fn="kw_lower", t=a, kw_default=2.0))
+                calls.append(dict(base, fn="kw_upper", t=b, kw_default=-1.0))
     return calls
 
 
@@ -694,19 +912,24 @@ def oracle(ctx, boost):
     ch.decomposition([gen_call(rng) for _ in range(ctx.n(80, 2000) * k)])
     part = []
     for _ in range(ctx.n(60, 1500) * k):
-        c = gen_call(rng, fn="interval", force={"no_nan_thr": True})
+        c = gen_call(rng, fn=rng.choice(["interval", "kw_interval"]), force={"no_nan_thr": True})
         c["a"], c["b"] = order_bounds(c["a"], c["b"], len(c["obs"]))
         part.append(c)
     ch.partition(part)
     ch.brier_integral([gen_call(rng, fn="plain") for _ in range(ctx.n(80, 2000) * k)])
     ch.invariance([gen_call(rng, force={"no_nan_thr": True}) for _ in range(ctx.n(50, 1200) * k)])
+    ch.member_labels([gen_call(rng) for _ in range(ctx.n(60, 500) * k)])
+    ch.generic_vs_dedicated([gen_call(rng, fn=rng.choice(list(KW_FNS)), force={"no_nan_thr": True})
+                             for _ in range(ctx.n(60, 600) * k)])
     if ctx.thorough or boost:
         ex = exhaustive_calls()
         ctx.exhaustive.append("all ensembles with <= 3 members over the pool {-1,0,1/2,2} x 4 obs x 3 threshold pairs, "
-                              "both methods, with components: integral, decomposition, partition, Brier integral")
+                              "both methods, with components, duplicate / string member labels, dedicated and generic (chaining_func_kwargs) "
+                              "tw entry points: integral, decomposition, partition, Brier integral, generic = dedicated")
         ch.integral(ex)
         ch.decomposition([c for c in ex if c["fn"] == "plain"])
-        ch.partition([c for c in ex if c["fn"] == "interval"])
+        ch.partition([c for c in ex if c["fn"] in ("interval", "kw_interval")])
+        ch.generic_vs_dedicated([c for c in ex if c["fn"] in KW_FNS])
         ch.brier_integral([c for c in ex if c["fn"] == "plain"])
 
 
@@ -718,10 +941,11 @@ def replay(ctx, payload):
     ch = Checker(ctx2)
     table = {"value-eq-integral": ch.integral, "total-eq-under-over-spread": ch.decomposition,
              "tails-plus-interval-eq-crps": ch.partition, "brier-integral-eq-crps": ch.brier_integral,
-             "invariances": ch.invariance}
+             "invariances": ch.invariance, "member-label-independence": ch.member_labels,
+             "generic-kwargs-eq-dedicated": ch.generic_vs_dedicated}
     call = revive(call)
     if check in table:
-        for _ in range(1 if check != "invariances" else 6):
+        for _ in range(6 if check in ("invariances", "member-label-independence") else 1):
             table[check]([call])
     else:
         for f in table.values():
@@ -737,4 +961,8 @@ def revive(o):
         return [revive(v) for v in o]
     if o == "nan":
         return NAN
+    if o == "inf":
+        return INF
+    if o == "-inf":
+        return -INF
     return o
